@@ -107,7 +107,7 @@ def s2_random(rnd, n):
 def expected_from_spec(scns, ck):
     """TLC: run WntrSim on each scenario, check Refines, emit the expected timelines."""
     parts = common.chunks(scns, common.NCPU)
-    cfg = "SPECIFICATION Spec\nINVARIANT Emit\nPROPERTY NeverBackwards\nCHECK_DEADLOCK FALSE\n"
+    cfg = "SPECIFICATION Spec\nINVARIANT Emit\nPROPERTY NeverBackwards\nPROPERTY DefinitionUnchanged\nCHECK_DEADLOCK FALSE\n"
 
     def one(part):
         wd = common.subdir("c04_%d" % part[0]["id"])
